@@ -207,9 +207,107 @@ def gen(rng, k):
     return L
 
 
+def manual_net(r, slow):
+    """one network queue, per-node access queues; [slow] = bytes/s of the incoming leg of nodes 2 and 3"""
+    L = ["S 1 queue 0 %d 0" % r.choice([1000000, 10000000]), "ROUTE : 1"]
+    sid = 4
+    for n in (1, 2, 3, 4):
+        a = A1 + n - 1
+        L += ["N %d 0 %d" % (n, a), "S %d queue 0 0 0" % sid, "S %d queue %d 1000000 0" % (sid + 1, slow if n in (2, 3) else 0),
+              "OUT 0 %d : %d" % (a, sid), "IN 0 %d : %d" % (a, sid + 1)]
+        sid += 2
+    return L
+
+
+def gen_bulk(rng, k):
+    """a successful CONNECT followed by a large transfer in both directions at once, the second leg of
+    each direction slower than the first (the proxy's reads then span several segments and its writes
+    meet a full congestion window): every byte must arrive"""
+    r = rng
+    version = r.choice([5, 5, 4])
+    L = manual_net(r, r.choice([40000, 40000, 200000]))
+    size = r.choice([150000, 150000, 60000])
+    sa, sb = r.randrange(1000), r.randrange(1000)
+    base, f = valid_stream(r, version, "connect_ok")
+    base = base if version == 4 else bytes([5, 1, 0]) + bytes([5, 1, 0, 1]) + ip4(ORIGIN) + p16(OPORT)
+    ops = ["socks_new 0 1 %d %d 0" % (SPORT, version),
+           "acc_new 5 3", "tcp_open 5 1", "tcp_bind 5 0 0 %d" % OPORT, "listen 5 10", "tcp_new 60 3", "accept 5 60 0 700",
+           "tcp_new 20 2", "tcp_connect 20 0 %d %d 100" % (A1, SPORT),
+           "expires_at 7 1000000000", "async_wait 7 103",
+           "expires_at 9 60000000000", "async_wait 9 104"]
+    H = {700: ["tcp_read_all 60 4096 500", "tcp_write_all 60 %d %d 65536 501" % (sb, size)],
+         100: ["tcp_read_all 20 4096 300", "tcp_write_bytes 20 %s 101" % hx(base)],
+         103: ["tcp_write_all 20 %d %d 65536 301" % (sa, size)],
+         104: ["socks_counts 0", "tcp_close 20", "tcp_close 60"]}
+    L += ["M " + o for o in ops]
+    for h in sorted(H):
+        L += ["H %d %s" % (h, o) for o in H[h]]
+    L.append("M run")
+    return L
+
+
+def gen_udp(rng, k):
+    """UDP ASSOCIATE: the client's datagrams (SOCKS UDP header, IPv4 form) go to the relay, which strips the
+    header and forwards the payload to the target named in it; what comes back is wrapped in a header naming
+    its source.  Unknown address types are ignored; a stranger's datagram is treated like a reply."""
+    r = rng
+    L = manual_net(r, 0)
+    cport = 4000
+    ops = ["socks_new 0 1 %d 5 0" % SPORT,
+           "udp_new 30 2", "udp_open 30 1", "udp_bind 30 0 0 %d" % cport, "udp_arecv 30 1 310 : 1500",
+           "udp_new 31 3", "udp_open 31 1", "udp_bind 31 0 0 7000", "udp_arecv 31 1 311 : 1500",
+           "udp_new 32 4", "udp_open 32 1", "udp_bind 32 0 0 7001", "udp_arecv 32 1 312 : 1500",
+           "tcp_new 20 2", "tcp_connect 20 0 %d %d 100" % (A1, SPORT)]
+    announce = r.choice(["zero", "zero", "exact", "addr_only"])
+    if announce == "zero":
+        dst = ip4(0) + p16(0)
+    elif announce == "exact":
+        dst = ip4(A1 + 1) + p16(cport)
+    else:
+        dst = ip4(A1 + 1) + p16(0)
+    H = {310: ["udp_arecv 30 1 310 : 1500"],
+         311: ["udp_arecv 31 1 311 : 1500", "udp_send_bytes 31 0 %d 2048 %s" % (A1, hx(bytes(pat(r.randrange(1000), r.choice([1, 30, 900])))))],
+         312: ["udp_arecv 32 1 312 : 1500", "udp_send_bytes 32 0 %d 2048 %s" % (A1, hx(bytes(pat(r.randrange(1000), r.choice([1, 30])))))],
+         100: ["tcp_read_loop 20 4096 300", "tcp_write_bytes 20 %s 101" % hx(bytes([5, 1, 0]) + bytes([5, 3, 0, 1]) + dst)]}
+    t = 500000000
+    tid = 40
+    hid = 1000
+    for i in range(r.choice([1, 2, 4, 6])):
+        kind = r.choice(["fwd", "fwd", "fwd", "other_target", "badatyp", "frag", "stranger"])
+        payload = bytes(pat(r.randrange(1000), r.choice([1, 4, 200, 1400])))
+        if kind == "fwd":
+            d = bytes([0, 0, 0, 1]) + ip4(A1 + 2) + p16(7000) + payload
+        elif kind == "other_target":
+            d = bytes([0, 0, 0, 1]) + ip4(A1 + 3) + p16(7001) + payload
+        elif kind == "badatyp":
+            d = bytes([0, 0, 0, r.choice([0, 2, 4, 0x81, 0xff])]) + ip4(A1 + 2) + p16(7000) + payload
+        elif kind == "frag":
+            d = bytes([0, 0, r.choice([1, 0xff]), 1]) + ip4(A1 + 2) + p16(7000) + payload
+        else:
+            d = None
+        tid += 1
+        hid += 1
+        ops += ["expires_at %d %d" % (tid, t), "async_wait %d %d" % (tid, hid)]
+        if d is None:
+            H[hid] = ["udp_send_bytes 32 0 %d 2048 %s" % (A1, hx(payload))]
+        else:
+            H[hid] = ["udp_send_bytes 30 0 %d 2048 %s" % (A1, hx(d))]
+        t += r.choice([1000000, 100000000, 300000000])
+    ops += ["expires_at 9 %d" % (t + 2000000000), "async_wait 9 104"]
+    H[104] = ["socks_counts 0", "tcp_close 20"]
+    L += ["M " + o for o in ops]
+    for h in sorted(H):
+        L += ["H %d %s" % (h, o) for o in H[h]]
+    L.append("M run")
+    return L
+
+
 def generate(rng, tier):
     n = 90 if tier == "quick" else 2500
-    return [("k%d" % k, gen(rng, k)) for k in range(n)]
+    nb = 4 if tier == "quick" else 60
+    nu = 25 if tier == "quick" else 600
+    return [("k%d" % k, gen(rng, k)) for k in range(n)] + [("b%d" % k, gen_bulk(rng, k)) for k in range(nb)] + \
+           [("u%d" % k, gen_udp(rng, k)) for k in range(nu)]
 
 
 def reference(version, s):
@@ -272,10 +370,99 @@ def reference(version, s):
     return reply, ("cmd", cmd, addr, port, None), cmd, s[9:]
 
 
+def oracle_bulk(lines, trace):
+    ev = parse_trace(trace)
+    fails = []
+    version = 5
+    size = sa = sb = None
+    for l in lines:
+        t = l.split()
+        if t[:2] == ["M", "socks_new"]:
+            version = int(t[5])
+        if t[0] == "H" and t[2] == "tcp_write_all":
+            if t[3] == "20":
+                sa, size = int(t[4]), int(t[5])
+            else:
+                sb = int(t[4])
+    comp = {f[0]: f[1:] for (t, tag, f) in ev if tag == 1}
+    reply = (b"\x05\x00" + bytes([5, 0, 0, 1]) + ip4(ORIGIN) + p16(OPORT)) if version == 5 else (bytes([0, 90]) + p16(OPORT) + ip4(ORIGIN))
+    for (h, who, exp) in ((500, "target", bytes(pat(sa, size))), (300, "client", reply + bytes(pat(sb, size)))):
+        if h in comp:
+            total, dig = comp[h][1], comp[h][2]
+            if total != len(exp) or dig != ncommon.adler(exp):
+                fails.append(("c17/bulk-relay", "the %s received %d bytes (digest %d) of the %d sent through the proxy (digest %d)" % (who, total, dig, len(exp), ncommon.adler(exp))))
+        else:
+            fails.append(("c17/bulk-relay", "the %s's read never completed" % who))
+    return fails
+
+
+def oracle_udp(lines, trace):
+    ev = parse_trace(trace)
+    fails = []
+    sent = []          # (t, socket, bytes)
+    H = {}
+    for l in lines:
+        t = l.split()
+        if t[0] == "H":
+            H.setdefault(int(t[1]), []).append(t[2:])
+    # datagrams in the order their handlers ran
+    for (t, tag, f) in ev:
+        if tag == 1 and f[0] in H:
+            for o in H[f[0]]:
+                if o[0] == "udp_send_bytes" and (len(f) < 2 or f[1] == 0):
+                    sent.append((t, int(o[1]), bytes.fromhex(o[5]) if o[5] != "-" else b"", f[0]))
+    relay = [0, A1, 2048]
+    def recvd(h):
+        return [(t, f[4], f[5:8]) for (t, tag, f) in ev if tag == 1 and f[0] == h and len(f) >= 8 and f[1] == 0]
+    # what each target must have received from the relay: the payloads of well-formed client datagrams naming it
+    for (tsock, h, addr, port) in ((31, 311, A1 + 2, 7000), (32, 312, A1 + 3, 7001)):
+        exp = []
+        for (t, s, d, hh) in sent:
+            if s == 30 and len(d) >= 10 and d[3] == 1 and d[4:8] == ip4(addr) and d[8:10] == p16(port) and len(d) > 10:
+                exp.append(ncommon.adler(d[10:]))
+        got = recvd(h)
+        if [g[1] for g in got] != exp:
+            fails.append(("c17/udp-forward", "target %d received datagrams with digests %s, the client's datagrams naming it carry %s" % (tsock, [g[1] for g in got][:6], exp[:6])))
+        elif any(g[2] != relay for g in got):
+            fails.append(("c17/udp-forward", "target %d saw a sender other than the relay" % tsock))
+    # what the client must have received: every datagram that reached the relay from somebody else, wrapped -
+    # once the relay knows the client's port (announced in the request, or learnt from its first datagram)
+    announced = True
+    for l in lines:
+        t = l.split()
+        if t[0] == "H" and t[1] == "100" and t[2] == "tcp_write_bytes":
+            req = bytes.fromhex(t[4])
+            announced = req[-2:] != b"\x00\x00"
+    first_client = min([t for (t, s0, d, hh) in sent if s0 == 30] + [1 << 62])
+    must, may = [], []
+    for (t, s0, d, hh) in sent:
+        if s0 in (31, 32) and d:
+            src = (A1 + 2, 7000) if s0 == 31 else (A1 + 3, 7001)
+            dig = ncommon.adler(bytes([0, 0, 0, 1]) + ip4(src[0]) + p16(src[1]) + d)
+            if announced or t > first_client + 200000000:
+                must.append(dig)
+            elif t >= first_client:
+                may.append(dig)
+    got = sorted(g[1] for g in recvd(310))
+    pool = sorted(must + may)
+    missing = [x for x in must if x not in got]
+    extra = list(got)
+    for x in pool:
+        if x in extra:
+            extra.remove(x)
+    if missing or extra:
+        fails.append(("c17/udp-reply", "the client received datagrams with digests %s; due (source header + payload) %s, possible %s" % (got[:6], sorted(must)[:6], sorted(may)[:6])))
+    return fails
+
+
 def oracle(lines, trace):
     bad = ncommon.crashed(trace)
     if bad:
         return [("c17/crash", bad)]
+    if any(l.startswith("H 700 tcp_read_all") for l in lines):
+        return oracle_bulk(lines, trace)
+    if any(l.startswith("M udp_new 30 ") for l in lines):
+        return oracle_udp(lines, trace)
     fails = []
     version = 5
     for l in lines:
